@@ -1,4 +1,33 @@
 import ZapVerif.Drv.EncOp
+import ZapVerif.Model.Deliver
 namespace ZapVerif.Drv.C10
-def handle := ZapVerif.Drv.EncOp.handle
+open Lean ZapVerif ZapVerif.Drv ZapVerif.Deliver ZapVerif.Entry
+
+partial def parseCore (j : Json) : R Core := do
+  let t ← str j "t"
+  match t with
+  | "io" =>
+    let sinks ← (arrD j "sinks").toList.mapM (fun s => do
+      pure (⟨natD s "id" 0, boolD s "werr" false, boolD s "serr" false⟩ : Sink))
+    return .io (boolD j "enabled" false) sinks
+  | "tee" => return .tee (← (arrD j "cs").toList.mapM parseCore)
+  | "wrap" => return .wrap (← parseCore (← fld j "c"))
+  | _ => throw s!"bad core {t}"
+
+def handle (op : Json) : R Json := do
+  let k ← str op "k"
+  match k with
+  | "entry" => EncOp.handle op
+  | "deliver" =>
+    let c ← parseCore (← fld op "core")
+    let o := logOnce c
+    return obj [("delivered", jarr jnat o.delivered), ("reported", jarr jnat o.reported), ("errorLines", jnat o.errorLines)]
+  | "stringers" =>
+    let os ← (arrD op "elems").toList.mapM EncOp.parseOutcome
+    let f := stringersField (hexFldD op "key") os
+    let cfg : Cfg := ⟨[], [], [], [], [], [], [], [], false⟩
+    let ent : Ent := ⟨0, .nilEnc, none, [], .noop, false, .nilEnc, [], [], [], []⟩
+    return obj [("line", jhex (jsonLine cfg ent [] [f]))]
+  | _ => throw s!"unknown op {k}"
+
 end ZapVerif.Drv.C10
